@@ -114,6 +114,13 @@ _KEYS = {}
 
 def load_key(name, fresh=False):
     from tlslite.utils.keyfactory import parsePEMKey
+    if name.startswith("generated-"):
+        # a key made by the library's own generator (construct-then-assign path), deterministic through the DRBG
+        if name not in _KEYS:
+            from tlslite.utils.python_rsakey import Python_RSAKey
+            CTX.reset("c11a-" + name)
+            _KEYS[name] = Python_RSAKey.generate(int(name.split("-")[1]))
+        return _KEYS[name]
     if fresh or name not in _KEYS:
         if name in EXTRA_KEYS:
             pem = EXTRA_KEYS[name]
@@ -127,7 +134,7 @@ def load_key(name, fresh=False):
 
 
 def key_names():
-    return REPO_KEYS + sorted(EXTRA_KEYS)
+    return REPO_KEYS + sorted(EXTRA_KEYS) + ["generated-1024"]
 
 
 # ------------------------------------------------------------------ leaves (independent of tlslite)
